@@ -696,7 +696,43 @@ pub fn c03(tier: Tier) -> ! {
             run.fail(k, &w, c);
         }
     }
-    run.set("evaluations", evals + redesc);
+    // the states' own ordering (what the CLI's max() uses) follows the score, across zero as well
+    let mut order_checks = 0u64;
+    for spec in [ShapeSpec::LjCircle, ShapeSpec::LjTrimer(0.637556, 120., 1.)].iter() {
+        let sj = spec.json();
+        let r = spec.body().enclosing_radius();
+        let mut pool: Vec<(packing::PotentialState<packing::LJShape2>, f64, String)> = vec![];
+        for g in ["p1", "p2", "p2gg"].iter() {
+            let tpl = StateTemplate::new(g, &sj);
+            let n = ita_ops(g).len() as f64;
+            for &f in [3.5, 2.4, 2.0, 1.7, 1.5].iter() {
+                let p = Params { length: f * r * n.sqrt(), ratio: 0.9, angle: PI / 2., x: 0.21, y: 0.13, phi: 0.7 };
+                if let Ok(AnyState::Lj(st)) = AnyState::from_json(&tpl.with(&p)) {
+                    if let Some(sc) = st.score() {
+                        if sc.is_finite() {
+                            pool.push((st, sc, format!("{} length factor {}", g, f)));
+                        }
+                    }
+                }
+            }
+        }
+        let (neg, pos) = (pool.iter().filter(|x| x.1 < 0.).count(), pool.iter().filter(|x| x.1 > 0.).count());
+        run.require(neg > 0 && pos > 0, "ordering pool needs scores on both sides of zero");
+        for (a, sa, la) in pool.iter() {
+            for (b, sb, lb) in pool.iter() {
+                if sa == sb {
+                    continue;
+                }
+                order_checks += 1;
+                let want = sa.partial_cmp(sb);
+                if a.partial_cmp(b) != want || Some(a.cmp(b)) != want || (std::cmp::max(a.clone(), b.clone()).score() != Some(sa.max(*sb))) {
+                    run.fail(None, &format!("{}: states scoring {} and {} are ordered {:?} (max picks {:?})", spec.label(), sa, sb, a.partial_cmp(b), std::cmp::max(a.clone(), b.clone()).score()), json!({"shape": spec.label(), "a": la, "b": lb}));
+                }
+            }
+        }
+    }
+    run.set("ordering_comparisons", order_checks);
+    run.set("evaluations", evals + redesc + order_checks);
     run.set("distinct_nontrivial", nontrivial);
     run.set("states_compared_with_lattice_sum", evals);
     run.set("redescriptions_compared", redesc);
